@@ -40,7 +40,7 @@ R(i) == [k |-> "rep", n |-> i]
 RepVals == <<IntV(2), IntV(2), IntV(1)>>
 ArgVal(d) == CASE d.k = "p" -> pool[d.n] [] d.k = "int" -> IntV(d.n) [] d.k = "rep" -> RepVals[d.n] [] OTHER -> LitVals[d.n]
 
-\* ---- initial pools (five variants).  Each is a sequence of construction operations executed by
+\* ---- initial pools (six variants).  Each is a sequence of construction operations executed by
 \* the same Step machinery, so the harness builds the pool exactly as the specification does.
 InitOps(v) ==
   CASE v = 1 -> << [op |-> "list", a |-> <<I(1), I(2), I(3)>>, dst |-> 1],
@@ -71,6 +71,13 @@ InitOps(v) ==
                    [op |-> "vector", a |-> <<I(1), I(2)>>, dst |-> 4],
                    [op |-> "list", a |-> <<P(3), P(4), I(9)>>, dst |-> 2],
                    [op |-> "vector", a |-> <<I(1), I(2)>>, dst |-> 4] >>
+    \* improper lists whose tail is a vector: the same vector object (o2, o3) and an equal one (o4); equal?,
+    \* member and assoc compare such tails structurally, append and list? stop at them
+    [] v = 6 -> << [op |-> "vector", a |-> <<I(1), I(2)>>, dst |-> 1],
+                   [op |-> "cons", a |-> <<I(1), P(1)>>, dst |-> 2],
+                   [op |-> "cons", a |-> <<I(1), P(1)>>, dst |-> 3],
+                   [op |-> "vector", a |-> <<I(1), I(2)>>, dst |-> 4],
+                   [op |-> "cons", a |-> <<I(1), P(4)>>, dst |-> 4] >>
 
 -----------------------------------------------------------------------------
 \* objects reachable from a value (to keep structures acyclic: rendering a cycle never ends)
@@ -196,7 +203,7 @@ Apply(op, a, dst) ==
                            share |-> ShareMatrix(pool2, N, hp2), elem |-> ElemMatrix(pool2, N, hp2)])
 
 Init ==
-  /\ variant \in {1, 2, 3, 4, 5}
+  /\ variant \in {1, 2, 3, 4, 5, 6}
   /\ hp = <<>>
   /\ pool = [k \in 1..N |-> NilV]
   /\ hist = <<>>
